@@ -597,3 +597,103 @@ Proof. repeat split; vm_compute; reflexivity. Qed.
 
 Lemma witness_outside_guard : o_ok (transl (fun _ => sid) witness_prog) = false.
 Proof. vm_compute. reflexivity. Qed.
+
+(* ================================================================ the guard does not depend on the oracle *)
+Lemma guard_oracle_independent s1 s2 p :
+  perm_family s1 -> perm_family s2 -> o_ok (transl s1 p) = o_ok (transl s2 p).
+Proof.
+  intros H1 H2.
+  destruct (o_ok (transl s1 p)) eqn:E1; destruct (o_ok (transl s2 p)) eqn:E2; try reflexivity.
+  - rewrite (transl_guarded s1 s2 p H1 H2 E1) in E1. congruence.
+  - rewrite (transl_guarded s2 s1 p H2 H1 E2) in E2. congruence.
+Qed.
+
+(* ================================================================ the candidate repair is order independent, no guard *)
+Section Ext.
+  Variables P1 P2 : otag -> construct -> list decl.
+  Hypothesis HP : forall o c, P1 o c = P2 o c.
+
+  Lemma walk_block_ext l : Forall (fun s => forall glob c, walk_stmt P1 glob s c = walk_stmt P2 glob s c) l ->
+    forall c, walk_block P1 l c = walk_block P2 l c.
+  Proof.
+    induction 1 as [|s r Hs Hr IH]; intros c; [reflexivity|].
+    cbn [walk_block]. rewrite (Hs false c), IH. reflexivity.
+  Qed.
+
+  Lemma map_walk_ext brs c :
+    Forall (Forall (fun s => forall glob c, walk_stmt P1 glob s c = walk_stmt P2 glob s c)) brs ->
+    map (fun b => walk_block P1 b c) brs = map (fun b => walk_block P2 b c) brs.
+  Proof.
+    induction 1 as [|b r Hb Hr IH]; cbn; [reflexivity|].
+    rewrite (walk_block_ext b Hb c), IH. reflexivity.
+  Qed.
+
+  Lemma finish_ext glob base o c inner mk : finish P1 glob base o c inner mk = finish P2 glob base o c inner mk.
+  Proof. unfold finish. rewrite HP. reflexivity. Qed.
+
+  Lemma walk_stmt_ext s : forall glob c, walk_stmt P1 glob s c = walk_stmt P2 glob s c.
+  Proof.
+    induction s as [x t|o brs IH|o body IH|o v body IH|o brs IH] using stmt_ind';
+      intros glob c; rewrite !walk_stmt_eq; cbv zeta.
+    - reflexivity.
+    - rewrite (map_walk_ext brs c IH). apply finish_ext.
+    - rewrite (walk_block_ext body IH c). apply finish_ext.
+    - rewrite (walk_block_ext body IH _). apply finish_ext.
+    - rewrite (map_walk_ext brs c IH). apply finish_ext.
+  Qed.
+
+  Lemma walk_block_ext' l c : walk_block P1 l c = walk_block P2 l c.
+  Proof. apply walk_block_ext. apply Forall_forall. intros s _. apply walk_stmt_ext. Qed.
+
+  Lemma walk_item_ext st it : walk_item P1 st it = walk_item P2 st it.
+  Proof.
+    destruct it as [s|f body|body]; cbn [walk_item].
+    - rewrite (walk_stmt_ext s). reflexivity.
+    - rewrite (walk_block_ext' body). reflexivity.
+    - rewrite (walk_block_ext' body). reflexivity.
+  Qed.
+
+  Lemma walk_prog_ext p : walk_prog P1 p = walk_prog P2 p.
+  Proof.
+    unfold walk_prog. generalize (mk_ps (mk_pctx [] []) (mk_out [] [] [] [] true)).
+    induction p as [|it r IH]; cbn [fold_left]; intros st; [reflexivity|].
+    rewrite walk_item_ext. apply IH.
+  Qed.
+End Ext.
+
+Lemma sorted_oracle_canonical s1 s2 l : perm_oracle s1 -> perm_oracle s2 -> sorted_oracle s1 l = sorted_oracle s2 l.
+Proof. intros H1 H2. unfold sorted_oracle. apply sort_of_perm. rewrite (H1 l), (H2 l). reflexivity. Qed.
+
+Lemma sorted_oracle_perm s : perm_oracle s -> perm_oracle (sorted_oracle s).
+Proof. intros H l. unfold sorted_oracle. rewrite sort_perm. apply H. Qed.
+
+Lemma promote_fixed_independent s1 s2 c :
+  perm_oracle s1 -> perm_oracle s2 -> promote_fixed s1 c = promote_fixed s2 c.
+Proof.
+  intros H1 H2. unfold promote_fixed.
+  destruct c as [parent brs|d pr]; cbn.
+  - unfold promote_if. apply fold_left_ext_in. intros acc br _. unfold promote_branch.
+    rewrite (sorted_oracle_canonical s1 s2 _ H1 H2). reflexivity.
+  - unfold promote_loop, loop_order. rewrite (sorted_oracle_canonical s1 s2 _ H1 H2). reflexivity.
+Qed.
+
+Lemma transl_fixed_independent s1 s2 p :
+  perm_family s1 -> perm_family s2 -> transl_fixed s1 p = transl_fixed s2 p.
+Proof.
+  intros H1 H2. unfold transl_fixed. apply walk_prog_ext.
+  intros o c. apply promote_fixed_independent; [apply H1|apply H2].
+Qed.
+
+(* the repair changes nothing inside the guard: there it emits what the code emits today *)
+Lemma transl_fixed_conservative s p :
+  perm_family s -> o_ok (transl s p) = true -> transl_fixed s p = transl s p.
+Proof.
+  intros H Hok. unfold transl_fixed.
+  change (walk_prog (fun o c => promote_fixed (s o) c) p) with (transl (fun o => sorted_oracle (s o)) p).
+  symmetry. apply transl_guarded; [exact H| |exact Hok].
+  intros o. apply sorted_oracle_perm, H.
+Qed.
+
+Lemma witness_fixed :
+  transl_fixed (fun _ => sid) witness_prog = transl_fixed (fun _ => srev) witness_prog.
+Proof. vm_compute. reflexivity. Qed.
